@@ -77,6 +77,38 @@ pub fn cone_witnesses(rng: &mut Rng, depth: u8, lon: f64, lat: f64, r: f64, maxw
       push(l, b);
     }
   }
+  // corner witnesses: a cell may be touched through a corner so thin that no ring point falls in it. Every vertex of the cells met
+  // by the ring points that lies inside the cone yields points of the cone in each of the (up to 4) cells sharing it: a tiny
+  // circle around the vertex, each point of which is kept only if it is itself inside the cone and robustly inside a cell
+  {
+    let n = 1u32 << depth;
+    let mut verts: BTreeSet<(u8, u32, u32)> = BTreeSet::new();
+    let mut cand: Vec<(f64, f64)> = Vec::new();
+    let mut add_cell = |l: f64, b: f64, verts: &mut BTreeSet<(u8, u32, u32)>, cand: &mut Vec<(f64, f64)>| {
+      if verts.len() >= 1500 { return; }
+      let f = face_of(n, l, b);
+      let (i, j) = ((f.a2 / 2).min(n - 1), (f.c2 / 2).min(n - 1));
+      for (da, dc) in [(0u32, 0u32), (1, 0), (0, 1), (1, 1)].iter() {
+        if verts.insert((f.b, i + da, j + dc)) { cand.push(ref_unproj_local(n as f64, f.b, (i + da) as f64, (j + dc) as f64)); }
+      }
+    };
+    add_cell(lon, lat, &mut verts, &mut cand);
+    for frac in [0.5, 0.9, 0.99, 0.999, 1.0 - 1e-6].iter() {
+      let rho = rr * frac;
+      let circ = TWO_PI * rho.sin().abs().max(1e-300);
+      let npts = ((circ / (0.5 * s)).ceil() as usize + 8).max(120).min(400);
+      for k in 0..npts { let (l, b) = offset_point(lon, lat, rho, TWO_PI * (k as f64 + 0.5) / (npts as f64)); add_cell(l, b, &mut verts, &mut cand); }
+    }
+    for (vl, vb) in cand {
+      if !(vl.is_finite() && vb.is_finite()) || vb.abs() > HALF_PI - 1e-9 { continue; }
+      let dv = ang_dist(vl, vb, lon, lat);
+      if dv > r { continue; }
+      // as far from the vertex as the cone allows, at most 2 % of a cell
+      let eps = (0.02 * s).min(0.5 * (r - dv));
+      if eps <= 0.0 { continue; }
+      for k in 0..16 { let (l, b) = offset_point(vl, vb, eps, TWO_PI * (k as f64 + 0.37) / 16.0); push(l, b); }
+    }
+  }
   let mut v: Vec<C> = set.into_iter().map(|(b, p)| C { b, p, f: true }).collect();
   // keep at most maxw, evenly spread
   if v.len() > maxw { let step = v.len() as f64 / maxw as f64; v = (0..maxw).map(|k| v[(k as f64 * step) as usize].clone()).collect(); }
@@ -270,9 +302,12 @@ pub fn record_cone(rng: &mut Rng, count: u64, out: &mut Out) {
     } else { (lon, lat, r, depth, dd, class) };
     // class "cap-small": the small-cone branch (radius below the starting-depth threshold of the requested depth) at shallow
     // depths, centred in a polar cap: the cells are large, strongly sheared next to the seams, and the cone is wide in longitude
-    let (lon, lat, r, depth, dd, class) = if class != "corner" && class != "cellcentre" && rng.below(12) == 0 {
-      let depth = rng.below(6) as u8;
-      let r = thr[depth as usize] * rng.range(0.25, 0.999);
+    let (lon, lat, r, depth, dd, class) = if class != "corner" && class != "cellcentre" && rng.below(8) == 0 {
+      // (half of them at depths 1 and 2, where the radius of the small-cone branch is a sizeable fraction of a base cell)
+      let depth = if rng.bool() { 1 + rng.below(2) as u8 } else { rng.below(6) as u8 };
+      // thr[d] is the radius at which the starting depth becomes <= d, i.e. the table entry of depth d + 1: the small-cone branch
+      // of depth d is taken below the entry of depth d itself (0.841 at depth 0)
+      let r = (if depth == 0 { 0.8410686705685088 } else { thr[depth as usize - 1] }) * rng.range(0.25, 0.999);
       let sgn = if rng.bool() { 1.0 } else { -1.0 };
       (rng.range(0.0, TWO_PI), sgn * rng.range(0.73, 1.5), r, depth, if rng.below(4) == 0 { 1 } else { 0 }, "cap-small")
     } else { (lon, lat, r, depth, dd, class) };
@@ -773,7 +808,7 @@ pub fn record_c12(rng: &mut Rng, count: u64, out: &mut Out) {
       // edges (slope +-1 reached along the edge): the "special points" that distinguish the exact mode from the approximate
       // one. The edge starts half of the time from one of the 4 points (k pi/2, 0), whose unit vector has exact zeros
       // (degenerate branches of the intersection routines). Equatorial region: slope = (3 pi / 8) cos^2(lat) / tan(azimuth).
-      3 if radius < 0.5 => {
+      3 | 6 if radius < 0.5 => {
         let a = if rng.bool() { (HALF_PI * rng.below(4) as f64, 0.0) } else { let p = special_sphere_point(rng, radius); (p.0, p.1.max(-0.6).min(0.6)) };
         let t = 3.0 * PI / 8.0 * a.1.cos().powi(2) / (1.0 + rng.range(-0.12, 0.12));
         let alpha = t.atan() * (if rng.bool() { 1.0 } else { -1.0 }) + if rng.bool() { PI } else { 0.0 };
